@@ -587,6 +587,17 @@ def handleAuth (s : S) (arg : Bytes) : S × Bool :=
 
 /-! ### STARTTLS -/
 
+/-- `c.conn = tlsConn; c.init()`: a fresh limiter and a fresh bufio over the TLS stream — whatever
+    plaintext was buffered is gone -/
+def switchWire (s : S) : S :=
+  { s with w := { (s.tlsW.getD {}) with limit := s.cfg.maxLine, cur := 0, tripped := false, buf := [], err := none },
+           tlsW := none, c := { s.c with tls := true } }
+
+def forgetGreeting (s : S) : S := { s with c := { s.c with helo := [], didAuth := false } }
+
+/-- what a successful handshake is followed by: new wire, Logout of the plaintext session, all state reset -/
+def tlsUpgrade (s : S) : S := resetConn (forgetGreeting (logoutSess (switchWire s)))
+
 def handleStartTLS (s : S) : S :=
   if s.c.tls then reply s 502 ⟨5, 5, 1⟩ "Already running in TLS"
   else if !s.cfg.tlsAvail then reply s 502 ⟨5, 5, 1⟩ "TLS not supported"
@@ -595,13 +606,7 @@ def handleStartTLS (s : S) : S :=
     let (ok, s) := popHs s
     let s := emit s (.tlsStart ok)
     if !ok then reply s 550 ⟨5, 0, 0⟩ "Handshake error"
-    else
-      -- c.conn = tlsConn; c.init(): a fresh limiter and a fresh bufio over the TLS stream —
-      -- whatever plaintext was buffered is gone
-      let w' : W := { (s.tlsW.getD {}) with limit := s.cfg.maxLine, cur := 0, tripped := false, buf := [], err := none }
-      let s := { s with w := w', tlsW := none, c := { s.c with tls := true } }
-      let s := logoutSess s
-      resetConn { s with c := { s.c with helo := [], didAuth := false } }
+    else tlsUpgrade s
 
 /-! ### DATA -/
 
